@@ -20,7 +20,10 @@ def run(ctx):
                 "(symmetric)) x plaintext sizes {0, 1, 40, 1000, 8191, 8192, 100000} (quick: a rotating cover selected by VERIF_SEED; thorough: the full product); "
                 "attacks on the 40-byte message of every (kind, key, cipher, compression[, hash]) class: flips (quick: first/middle/last byte of each region, one mask; "
                 "thorough: every byte up to 2048 per region, masks 01 and 80), truncation inside each region, StripMDC; distinct = distinct (spec, size) resp. "
-                "(spec, attack, region, position, mask)")
+                "(spec, attack, region, position, mask); canonical text: every text over {a, CR, LF} of length <= 5 (quick) / <= 6 (thorough) under every way of cutting it into Write "
+                "calls (TLC), the cuts with <= 3 chunks replayed on NewCanonicalTextHash; text-mode detached signatures over 5 CRLF texts (incl. 100 kB with a CR at offsets "
+                "32767 and 65535) signed and verified through every pair of 6 readers (memory, plain 32 KiB, byte-wise, cut after every CR, seeded, 7-byte), text-mode one-pass "
+                "messages read with 1/2/3/7/8/4096-byte and after-CR reads")
     ctx.assumptions = [
         "numeric correctness of RSA, ElGamal, DSA, ECDSA, CFB/OCFB, S2K and the hash functions is outside the model (exercised only through round trips and GnuPG interop)",
         "regions no mechanism of RFC 4880 covers are modelled as unprotected and only explored: low bits of MPI bit counts (session-key and signature packets), DES parity bits "
@@ -43,11 +46,27 @@ def run(ctx):
             classes.setdefault("%s|%s|%s" % (t["kind"], t["a"], t["r"]), set()).add(t["class"])
     ctx.extra["model_outcome_table_rows"] = len(classes)
     ctx.extra["model_rows_allowing_silent_after_modification"] = sorted(k for k, v in classes.items() if "silent" in v and "|none|" not in k)
+    # canonical text (text-mode signatures) as a state machine over chunked input: chunking invariance for every way of cutting every
+    # text over {a, CR, LF} up to the bound; the (text, cut) cases with at most 3 chunks go to the real NewCanonicalTextHash
+    ct = ctx.tlc_must_hold("CanonText_MC", cfg=ctx.pick("CanonText_L5.cfg", "CanonText_L6.cfg"), workers=2, timeout=900)
+    if not ct.traces:
+        raise vlib.Infra("CanonText generator produced nothing")
+    if ctx.thorough:
+        doc = ctx.tlc("CanonText_MC", cfg="CanonText_ValueReceiver.cfg", workers=1, expect_violation=True, count=False, timeout=300,
+                      note="documentation: a wrapper that forgets the CR state between Write calls is refuted")
+        if doc.ok or doc.violated != "ChunkInvariant":
+            raise vlib.Infra("CanonText_ValueReceiver.cfg no longer yields the documented counterexample: %s" % doc.violated)
+    import json
+    canon_path = ctx.tmp("canon_cases.ndjson")
+    with open(canon_path, "w") as fh:
+        for c in ct.traces:
+            fh.write(json.dumps(c, separators=(",", ":")) + "\n")
+    ctx.extra["canonical_text_cases"] = len(ct.traces)
     have_gpg = ctx.have("gpg")
     if not have_gpg:
         ctx.skipped.append("gpg not installed: interop clauses (GnuPG accepts / GnuPG-produced messages are accepted) not exercised")
     res = ctx.go_test("c44", "TestC44$", cases=r.traces, timeout=ctx.pick(600, 1800),
-                      env={"VERIF_C44_GPG": 1 if have_gpg else 0, "VERIF_C44_GPGMAX": ctx.pick(24, 400)})
+                      env={"VERIF_C44_CANON": canon_path, "VERIF_C44_GPG": 1 if have_gpg else 0, "VERIF_C44_GPGMAX": ctx.pick(24, 400)})
     ctx.absorb(res)
     if have_gpg and not (ctx.extra.get("c44_gpg_accepts_go") and ctx.extra.get("c44_go_accepts_gpg")):
         ctx.skipped.append("gpg present but no interop case completed (key import failed?)")
